@@ -553,7 +553,7 @@ def match_f15a(f: dict) -> bool:
 # --------------------------------------------------------------------------------------------------
 # Enumerations (bounded-exhaustive) and random registries
 # --------------------------------------------------------------------------------------------------
-META_CRITS = [None, ['val', 'v'], ['val', 'w'], 'PRESENT', 'ABSENT', ['cb', 'is_none'], ['cb', ['eq', 'v']]]
+META_CRITS = [None, ['val', 'v'], ['val', 'w'], ['val', ''], 'PRESENT', 'ABSENT', ['cb', 'is_none'], ['cb', ['eq', 'v']]]
 META_CRITS2 = [None, 'PRESENT', 'ABSENT', ['val', 'v']]
 LABEL_STATES = [ABSENT, 'v', 'w', '']
 FIELD_CRITS = [None, ['val', 1], ['val', 2], 'PRESENT', 'ABSENT', ['cb', 'is_none'], ['cb', ['eq', 1]]]
@@ -646,12 +646,61 @@ def field_states(ctx: fw.Ctx) -> list[dict]:
     return out
 
 
+# ---- falsy-but-specified criteria: `0`, `False`, `''`, `[]`, `{}` are criteria, only `None` means "not specified"
+FALSY = [0, False, '', [], {}]
+FALSY_FIELD_STATES = [ABSENT, None, 0, False, '', [], {}, 1]
+
+
+def _cp(v: Any) -> Any:
+    return v if v is ABSENT else copy.deepcopy(v)
+
+
+def falsy_decls() -> list[dict]:
+    out = []
+    i = 0
+    crits = [None] + [['val', v] for v in FALSY]
+    for kind in ALL_KINDS:
+        for v in FALSY:
+            out.append(decl(kind, f'z{i}', i, field='spec.f', value=['val', copy.deepcopy(v)])); i += 1
+        if kind in UPDATE_KINDS:
+            for o, n in itertools.product(crits, crits):
+                if o is None and n is None:
+                    continue
+                out.append(decl(kind, f'y{i}', i, field='spec.f', old=copy.deepcopy(o), new=copy.deepcopy(n))); i += 1
+    return out
+
+
+def falsy_states(thorough: bool) -> list[dict]:
+    out = []
+    k = 0
+    for new in FALSY_FIELD_STATES:
+        body = _with_field(_cp(new), False)
+        for cls in ('watching', 'spawning', 'indexing'):
+            out.append(state(cls, body))
+        for old in [None] + FALSY_FIELD_STATES:
+            for reason in HANDLER_REASONS:
+                k += 1
+                if reason == 'create' and old is not None:
+                    continue
+                if reason != 'update' and old is None and reason != 'create':
+                    continue
+                if not thorough and reason not in ('update', 'create') and k % 3:
+                    continue
+                b = copy.deepcopy(body)
+                if reason == 'delete':
+                    b['metadata']['deletionTimestamp'] = '2020-01-01T00:00:00Z'
+                out.append(state('changing', b, reason=reason, initial=(reason == 'resume'),
+                                 new=_with_field(_cp(new), True),
+                                 old=None if old is None else _with_field(_cp(old), True)))
+    return out
+
+
 def gen_crit(r: Any, pool: list) -> Any:
     return copy.deepcopy(r.choice(pool))
 
 
 R_FIELDS = ['spec.f', 'spec.a.b', 'spec.g', 'status.s', 'metadata.labels.l1']
-R_VALUES = [0, 1, 2, 'v', '', None, True, [1], {'b': 1}, {}]
+R_VALUES = [0, 1, 2, 'v', '', None, True, False, [], [1], {'b': 1}, {}]
 R_FIELD_CRITS = [None, None, 'PRESENT', 'ABSENT', ['cb', 'is_none'], ['cb', 'not_none'], ['cb', 'T'], ['cb', 'F']] + \
                 [['val', v] for v in R_VALUES if v is not None] + [['cb', ['eq', v]] for v in (1, 'v', {'b': 1})]
 R_META_CRITS = ['PRESENT', 'ABSENT', ['val', 'v'], ['val', 'w'], ['val', ''], ['cb', 'is_none'], ['cb', 'not_none'],
@@ -694,6 +743,9 @@ def gen_decls(r: Any, cls: str) -> list[dict]:
             if kind in UPDATE_KINDS and r.random() < 0.5:
                 d['old'] = gen_crit(r, R_FIELD_CRITS)
                 d['new'] = gen_crit(r, R_FIELD_CRITS)
+                if r.random() < 0.35:       # only falsy criteria: `new=0` is a criterion, `new=None` is none
+                    pool = [None] + [['val', v] for v in FALSY]
+                    d['old'], d['new'] = gen_crit(r, pool), gen_crit(r, pool)
             else:
                 d['value'] = gen_crit(r, R_FIELD_CRITS)
         out.append(d)
@@ -1035,6 +1087,17 @@ def run(ctx: fw.Ctx) -> int:
     ctx.differential('field1', HEADER, single_cases(ctx, sd, ss), shard=150)
     ctx.differential('decorators', HEADER, attrs, shard=200)
     sweeps.append(sw2)
+    # ---------- bounded-exhaustive sweep 3: falsy criteria (0, False, '', [], {}) x falsy field values ----------
+    zd = falsy_decls()
+    sw3 = Sweep(ctx, 'falsy', zd)
+    zs = falsy_states(ctx.thorough)
+    for s in zs:
+        sw3.run_state(s)
+    ctx.count('pairs', 'falsy', sum(len(sw3.by_cls.get(s['cls'], ())) for s in zs))
+    ctx.sample({'sweep': 'falsy', 'decl': zd[60], 'state': zs[30]})
+    ctx.differential('falsy', sw3.header, sw3.cases, shard=160)
+    ctx.differential('decorators_falsy', HEADER, sw3.attrs_cases(), shard=200)
+    sweeps.append(sw3)
     for s_ in sweeps:     # non-triviality across states: a declaration with criteria whose verdict varies over the sweep
         for d in s_.decls:
             if n_criteria(d) and len(s_.verdicts.get(real_id(d), ())) == 2:
